@@ -1,3 +1,6 @@
+import Tumfl.Props.C03
 import Tumfl.Props.C11
-#print axioms Tumfl.Props.C11_roundtrip
-#print axioms Tumfl.Inst.brackets_sound_all
+#print axioms Tumfl.Props.C03_ladder_is_climb
+#print axioms Tumfl.Props.C03_parseExp
+#print axioms Tumfl.Inst.model_ladder_ok
+#print axioms Tumfl.Theory.climb_complete_top
